@@ -7,7 +7,7 @@ import sys
 from graphql import VariableNode, Visitor, visit
 
 from harness import C14_builder as B
-from harness._h import known, pick
+from harness._h import NoTracing, known, pick
 
 ARG_NAMES = ["a", "a_0", "a_0_1", "a_1", "b"]
 if not B.SETUP_ERROR:
@@ -53,14 +53,7 @@ def build(shape, names):
     return tops, occ
 
 
-def check_variable_names(s0: bool, s1: bool, s2: bool, s3: bool, s4: bool, n0: int, n1: int, n2: int, n3: int) -> bool:
-    """
-    post: _
-    """
-    if B.SETUP_ERROR:
-        return False
-    shape = tuple(True if x else False for x in (s0, s1, s2, s3, s4))
-    names = [pick(n, len(ARG_NAMES)) for n in (n0, n1, n2, n3)]
+def _case(shape, names):
     tops, occ = build(shape, names)
     c = P.Client.__new__(P.Client)
     sels = c._build_selection_set(tuple(tops))
@@ -72,10 +65,32 @@ def check_variable_names(s0: bool, s1: bool, s2: bool, s3: bool, s4: bool, n0: i
         used.extend(vis.names)
     values = comb["values"]
     ok = len(used) == len(occ) and len(set(used)) == len(used) and sorted(values) == sorted(set(used)) and sorted(values.values()) == sorted(v for _, v in occ)
+    cross_tree = shape[2] and len(set(used)) < len(used)
+    return ok, cross_tree
+
+
+def _names_check(s0, s1, s3, s4, n0, n1, n2, n3) -> bool:
+    if B.SETUP_ERROR:
+        return False
+    shape = (True if s0 else False, True if s1 else False, True, True if s3 else False, True if s4 else False)
+    names = [pick(n, len(ARG_NAMES)) for n in (n0, n1, n2, n3)]
+    with NoTracing():
+        ok, cross_tree = _case(shape, names)
     if not ok:
-        # two trees: names are made unique per top-level field only, so `a` twice in tree 0 (a_0, a_0_1) collides with `a_0` in tree 1 ...
-        cross_tree = shape[2] and len(set(used)) < len(used)
+        # names are made unique per top-level field only: `a` in field 0 and its child give a_0, a_0_1; `a_0` in field 1 gives a_0_1 again
         if cross_tree:
             return known("C14-variable-name-collision-across-top-level-fields")
         return False
     return True
+
+
+def parts_source() -> str:
+    out = ["from harness.C14_names import _names_check", ""]
+    i = 0
+    for a in (False, True):
+        for b in (False, True):
+            for c in (False, True):
+                for d in (False, True):
+                    out.append(f"def check_names_{i}(n0: int, n1: int, n2: int, n3: int) -> bool:\n    \"\"\"\n    post: _\n    \"\"\"\n    return _names_check({a}, {b}, {c}, {d}, n0, n1, n2, n3)\n")
+                    i += 1
+    return "\n".join(out)
